@@ -3,6 +3,13 @@
 
    Every initial state is one case of the bounded space of one family:
      "n"     repartition(npartitions = n)  on every source
+     "nd"    repartition(npartitions = n)  on a DERIVED source: the source first goes
+             through a lazy step `pre` (head / tail with compute=False, a filter, a
+             column projection, a loc slice, a set_index on its own index, a concat
+             with an empty frame), so that optimizer rewrites sitting between the
+             step and the repartition can fire.  The harness observes the derived
+             collection itself and hands ITS rows / partitioning / divisions to the
+             contract as the source of the judged repartition.
      "d"     repartition(divisions = d, force) for every division vector over the
              label range +-1 (well-formed or not, covering or not)
      "size"  repartition(partition_size = bytes)
@@ -27,7 +34,7 @@
    out = JSON [c |-> case, e |-> [legal |-> ...]] is what the harness replays.  *)
 EXTENDS Divisions, TLC, Json
 
-CONSTANTS Fams,       \* subset of {"n", "d", "size", "fp"}
+CONSTANTS Fams,       \* subset of {"n", "nd", "d", "size", "fp"}
           Bounds      \* [Fams -> [rows, labels, parts, maxn, maxd, urows]]
 
 VARIABLES case, out
@@ -55,7 +62,9 @@ Requests == [f \in Fams |-> UNION { DivVectors[f][len] : len \in 2..(Bounds[f].m
 
 Bytes == {8, 16, 24, 48, 1000}       \* a row of the harness frames weighs 16 bytes (int64 rid + int64 label)
 
+Pres == {"head", "tail", "filter", "proj", "loc", "setidx", "concat"}
 Args(f) == CASE f = "n"    -> [k: {"n"}, n: 1..Bounds[f].maxn]
+             [] f = "nd"   -> [k: {"n"}, n: 1..Bounds[f].maxn, pre: Pres]
              [] f = "d"    -> [k: {"d"}, d: Requests[f], force: BOOLEAN]
              [] f = "size" -> [k: {"size"}, bytes: Bytes]
              [] f = "fp"   -> [k: {"fp"}, mode: {"n", "c"}, v: 1..Bounds[f].maxn, sort: BOOLEAN]
